@@ -888,6 +888,7 @@ def stepLine (a : RunAcc) (n : Nat) (line : String) : IO RunAcc := do
   | "ev" :: "ret" :: t :: rest => return { a with sim := s.onRet n (t.toNat?.getD 0) rest }
   | ["ev", "abandon", t] => return { a with sim := s.onAbandon n (t.toNat?.getD 0) }
   | "ev" :: "served" :: r :: rest => return { a with sim := s.onServed n r ((kvGet rest "target").getD "na") }
+  | ["ev", "livelock"] => return { a with sim := s.fail "c19" n "the process never becomes quiescent (a task keeps running without making progress, e.g. a serve loop spinning on the same receive error)" }
   | ["ev", "park", t] => return { a with sim := { s with parked := s.parked ++ [t.toNat?.getD 0] } }
   | ["ev", "unpark", t] => return { a with sim := { s with parked := s.parked.filter (· != t.toNat?.getD 0) } }
   | ["ev", "hang", t] => return { a with sim := s.fail "c19" n s!"call {t} never completes (still pending when nothing in the process can run)" }
